@@ -233,6 +233,25 @@ def _bind_in_stmt(s, stmt, source, recv):
             if isinstance(target, (ast.Tuple, ast.List)) and len(names) == ncols:
                 return Binding(s, names, stmt, "scalar")
             if isinstance(target, ast.Name):
+                # row = cursor.fetchone() ; ... (a, b) = row   /   a = row[0]
+                nm = [None] * ncols
+                f_ = stmt
+                while f_ is not None and not isinstance(f_, (ast.FunctionDef, ast.AsyncFunctionDef)):
+                    f_ = getattr(f_, "parent", None)
+                stores = [n for n in ast.walk(f_) if isinstance(n, ast.Name) and isinstance(n.ctx, ast.Store) and n.id == target.id] if f_ is not None else []
+                if f_ is not None and len(stores) == 1:
+                    for a in ast.walk(f_):
+                        if isinstance(a, ast.Assign) and isinstance(a.value, ast.Name) and a.value.id == target.id \
+                                and isinstance(a.targets[0], (ast.Tuple, ast.List)) and len(a.targets[0].elts) == ncols:
+                            for k_, e in enumerate(a.targets[0].elts):
+                                if isinstance(e, ast.Name):
+                                    nm[k_] = e.id
+                        if isinstance(a, ast.Assign) and isinstance(a.targets[0], ast.Name) and isinstance(a.value, ast.Subscript) \
+                                and isinstance(a.value.value, ast.Name) and a.value.value.id == target.id \
+                                and isinstance(a.value.slice, ast.Constant) and isinstance(a.value.slice.value, int) and -ncols <= a.value.slice.value < ncols:
+                            nm[a.value.slice.value % ncols] = a.targets[0].id
+                if any(nm):
+                    return Binding(s, nm, stmt, "scalar")
                 return Binding(s, [None] * ncols, stmt, "scalar-row:%s" % target.id)
         return None
     # zip(*rows) shapes
